@@ -34,7 +34,7 @@ def main():
     if a.no_build:
         br = common.BuildResult()
     else:
-        br = common.prepare(pid, a.tier)
+        br = common.prepare(pid, a.tier, getattr(mod, 'TABLES', None))
     try:
         res = mod.run(tier=a.tier, seed=seed, build=br)
     except Exception:
